@@ -105,6 +105,11 @@ func (e *Env) callValue(st *State, c *ssa.CallCommon, args []Val, rt types.Type,
 }
 
 func (e *Env) invoke(st *State, recv Val, m *types.Func, args []Val, rt types.Type, name string, depth int, c *ssa.CallCommon) []Out {
+	// a method call on a nil interface panics: checked (under nopanic) for interface values that were
+	// returned by calls; interface-typed parameters and struct fields are assumed non-nil (listed assumption)
+	if recv.K == kTerm && e.maybeNilIface[recv.T] && e.nopanic && e.specMode == 0 && c != nil {
+		e.oblige(st, "nopanic", "nil-interface-call("+m.Name()+")@"+e.pos(c.Pos()), tNot(tEq(recv.T, "nilI")), "method call on a possibly nil interface value", c.Pos())
+	}
 	// Go-side special values
 	switch recv.K {
 	case kStore, kIter, kCtx:
@@ -391,6 +396,9 @@ func (e *Env) symbolicResult(st *State, t types.Type, why string) Val {
 		return e.symbolic(st, t, "ctx_"+smtSym(why))
 	}
 	v := e.symbolic(st, t, "r_"+smtSym(trunc(why, 20)))
+	if _, isI := t.Underlying().(*types.Interface); isI && v.K == kTerm && !types.Identical(t, errType) {
+		e.maybeNilIface[v.T] = true
+	}
 	if v.K == kPtr {
 		// a returned pointer may be nil
 		v.Nil = e.D.fresh("isnil", sBool)
